@@ -165,6 +165,9 @@ package processorqueue
 
 // ---------------------------------------------------------------- the verdict handed to the flow
 // a request that found no slot is rejected at once; otherwise the answer is exactly the verdict the request was given
+// the priority a request waits with: 0 without a priority header configured, the configured priority of the group named by
+// that header of the request, 999 when the request has no such header or the group is not configured
+//@ ghost func prioOf(p *queueProcessor, s publictypes.APIStreamI) float64 = ite(p.groupByHeader == "", 0, ite(!in(p.groupByHeader, s.GetRequest().GetHeaders()), 999, ite(!in(s.GetRequest().GetHeaders()[p.groupByHeader], p.groups), 999, p.groups[s.GetRequest().GetHeaders()[p.groupByHeader]])))
 //@ func (*queueProcessor).enqueue
 //@   prop C06
 //@   mode seq
@@ -177,7 +180,7 @@ package processorqueue
 //@   spawn requires[only-a-registered-request-is-cleaned-up] in(req.apiStream.GetID(), p.requestsWatcher.requests) && p.requestsWatcher.requests[req.apiStream.GetID()] == req
 //@   ensures[full-queue-rejects] old(atomicval(p.requestsWatcher.requestCount)) >= p.maxQueueSize ==> !result
 //@   ensures[answer-is-the-verdict] old(atomicval(p.requestsWatcher.requestCount)) < p.maxQueueSize ==> (result <==> req.result == requestSuccess)
-//@   ensures[own-request] req != nil && req.apiStream == apiStream && req.priority == priority
+//@   ensures[own-request] req != nil && req.apiStream == apiStream && req.priority == old(prioOf(p, apiStream))
 //@   ensures[verdict-recorded] gEnqVerdict == result
 
 //@ func (*queueProcessor).Execute
